@@ -328,7 +328,9 @@ class Analysis:
                     t = top_of(ty)
                     taint = EMPTY
                     if f.kind == "closure" and i >= 2:
-                        taint = USET        # handed over by library code (fold, map, ..): unknown, not "constants only"
+                        # handed over by library code (fold, map, ..): unknown -- FnPass.run supplies that default for a parameter no
+                        # call site has joined, so that a modelled adaptor (`(a..b).map(closure)`) can give it the range it really has
+                        continue
                     if self.api_taint and f.kind != "closure" and f.local_name(i) != "self":
                         seq = ("[" in ty) or ("Vec<" in ty) or ty.endswith("str") or ("String" in ty)
                         taint = frozenset(["%s:%s:%s" % ("AS" if seq else "A", f.id, f.local_name(i) or i)])
@@ -2344,6 +2346,30 @@ class FnPass:
             return (t[0], t[1], ataint | USET, False)
         if callee == "<I as std::iter::IntoIterator>::into_iter" and pt is not None and num0:
             return mk(a0[0], a0[1], a0[3])
+        # `(a..b).map(|i| f(i))`: the closure is an in-crate function; its parameter ranges over the Range and what `next()` yields
+        # is the closure's return summary
+        if name == "map" and "Iterator" in callee and len(args) == 2 and num0:
+            cid = self._closure_of_operand(args[1])
+            if cid is not None:
+                cf = self.prog.fns[cid]
+                if cf.argc >= 2:
+                    self.an.join_param(cid, 2, self._fit_param((a0[0], a0[1], a0[2], a0[3]), cf.local_ty(2)), cf.local_ty(2))
+                return (None, None, ataint | frozenset(["M:" + cid]), False)
+        if name == "into_iter" and a0 is not None and any(x.startswith("M:") for x in a0[2]):
+            return (None, None, a0[2], False)
+        if name == "next" and a0 is not None and pt is not None:
+            ms = [x[2:] for x in a0[2] if x.startswith("M:")]
+            if not ms and args:
+                p0 = op_place(args[0])
+                if p0 is not None:
+                    for r in self.roots(pl_local(p0)):
+                        ms += [x[2:] for x in self.get(st, r)[2] if x.startswith("M:")]
+            if len(set(ms)) == 1 and ms[0] in self.prog.fns:
+                r_ = self.an.ret.get(ms[0])
+                if r_ is None:
+                    return ("bot", "bot", ataint, False)     # the closure has not been analysed yet: nothing is yielded so far
+                if r_[0] is not None and r_[0] != "bot":
+                    return (r_[0], r_[1], (ataint | r_[2]) - frozenset(x for x in ataint if x.startswith("M:")), False)
         # pass-through wrappers
         if callee in ("std::result::Result::<T, E>::map_err", "<std::result::Result<T, E> as std::ops::Try>::branch",
                       "<std::option::Option<T> as std::ops::Try>::branch", "std::hint::must_use", "std::convert::Into::into",
@@ -2448,6 +2474,31 @@ class FnPass:
         if name == "count" and pt == "usize":
             return mk(0, 2**63 - 1)
         return (t[0], t[1], ataint | USET, False)
+
+    def _closure_of_operand(self, op):
+        """def id of the closure an operand holds (by its closure type), or None"""
+        pl = op_place(op)
+        if pl is None:
+            return None
+        ty = self.fn.local_ty(pl_local(pl)) or ""
+        if "{closure@" not in ty:
+            return None
+        cache = self.an.__dict__.setdefault("_closure_by_ty", None)
+        if cache is None:
+            cache = {}
+            for g in self.prog.fns.values():
+                if g.kind == "closure" and g.argc >= 1:
+                    t1 = g.local_ty(1) or ""
+                    for pre in ("&mut ", "&"):
+                        if t1.startswith(pre):
+                            t1 = t1[len(pre):]
+                    cache.setdefault(t1, g.id)
+            self.an._closure_by_ty = cache
+        t = ty
+        for pre in ("&mut ", "&"):
+            if t.startswith(pre):
+                t = t[len(pre):]
+        return cache.get(t)
 
     def _is_input_slice(self, op):
         """operand is (a reference to) a `&[u8]` parameter of this function"""
